@@ -3,7 +3,7 @@ import ast
 import importlib.util
 
 from .. import cfg, flow
-from ..core import AnalysisError, norm, walk_no_nested, calls_in
+from ..core import AnalysisError, norm, walk_no_nested, calls_in, set_parents
 
 META = {
     'design_ref': 'DESIGN.md §5 C19',
@@ -43,13 +43,18 @@ def _calls(g, name):
 
 
 def _closure_returning_download(f):
-    """names of nested functions whose every return is download_file(remote, local)"""
+    """names of nested functions whose every return is download_file(remote, local), directly or through another such function"""
     out = set()
-    for st in f.node.body:
-        if isinstance(st, ast.FunctionDef):
-            rets = [r for r in ast.walk(st) if isinstance(r, ast.Return)]
-            if rets and all(r.value is not None and _is_download(r.value, f) for r in rets) and not st.args.args:
-                out.add(st.name)
+    changed = True
+    while changed:
+        changed = False
+        for st in f.node.body:
+            if isinstance(st, ast.FunctionDef) and st.name not in out:
+                rets = [r for r in ast.walk(st) if isinstance(r, ast.Return)]
+                if rets and all(r.value is not None and (_is_download(r.value, f) or (isinstance(r.value, ast.Call) and isinstance(r.value.func, ast.Name)
+                                                                                       and r.value.func.id in out)) for r in rets):
+                    out.add(st.name)
+                    changed = True
     return out
 
 
@@ -61,7 +66,12 @@ def _is_download(e, f):
 def r1_verify_before_replace(rep, src):
     f = src.func(SITE)
     rep.saw_func(f)
-    g = cfg.CFG(f.node)
+    # private module-level helpers (e.g. "download one patch and verify it") are inlined; the local closures that end in the full
+    # download keep their identity (they are the recognised fall-back exits)
+    from .. import normalize
+    fnode, _inl = normalize.inline_helpers(f, depth=2, skip=tuple(_closure_returning_download(f)))
+    set_parents(fnode)
+    g = cfg.CFG(fnode)
     reps = _calls(g, 'replace_file')
     if len(reps) != 1:
         raise AnalysisError('%s: expected exactly one replace_file call, found %d' % (f.site, len(reps)))
@@ -160,7 +170,11 @@ def r1_verify_before_replace(rep, src):
         neq = isinstance(guard.ast.ops[0], ast.NotEq)
         sides = [guard.ast.left, guard.ast.comparators[0]]
         hashed = [s for s in sides if hash_of(s) is not None]
-        entry = [s for s in sides if isinstance(s, ast.Subscript) and isinstance(s.value, ast.Name)]
+        def deref(e_):
+            if isinstance(e_, ast.Name) and len(single_defs.get(e_.id, [])) == 1:
+                return single_defs[e_.id][0].ast.value
+            return e_
+        entry = [deref(s) for s in sides if isinstance(deref(s), ast.Subscript) and isinstance(deref(s).value, ast.Name)]
         if (neq and rs is not True) or (not neq and rs is not False):
             whyp = 'the patch-hash comparison raises on the wrong outcome'
         elif not g.dominates(guard.id, pn.id) or g.exists_path([d for d, l in g.succ[guard.id] if l == rs][0], pn.id, avoid=[guard.id]) and False:
@@ -439,7 +453,7 @@ def r4_fallbacks(rep, src, g):
         # returns of nested closures are not part of this CFG
         v = n.ast.value
         n_ret += 1
-        if _is_download(v, f) or (isinstance(v, ast.Call) and isinstance(v.func, ast.Name) and v.func.id in closures and not v.args):
+        if _is_download(v, f) or (isinstance(v, ast.Call) and isinstance(v.func, ast.Name) and v.func.id in closures):
             rep.ok('C19.R4', f.site, 'exit `%s`' % norm(n.ast)[:50], 'full download', nontrivial=False)
             continue
         if norm(v) == content:
@@ -464,7 +478,8 @@ def r4_fallbacks(rep, src, g):
             continue
         pt = [p for p, lab in g.pred[n.id] if g.nodes[p].kind == 'test']
         txt = ' '.join(norm(g.nodes[p].ast) for p in pt)
-        if pt and (remote in txt or table in txt):
+        hashed = any(isinstance(c_, ast.Call) and norm(c_.func) in hashfns for p in pt for c_ in ast.walk(g.nodes[p].ast))
+        if pt and (remote in txt or table in txt or hashed):
             rep.ok('C19.R4', f.site, 'raise `%s`' % norm(n.ast)[:40], 'integrity error', nontrivial=False)
         else:
             rep.fail('C19.R4', f.site, 'raise `%s`' % norm(n.ast)[:40], 'an error other than a hash mismatch is raised instead of falling back to a full download',
@@ -489,7 +504,8 @@ def r4_fallbacks(rep, src, g):
                      % ('parsed' if k == 'ParseError' else 'fetched'), where='%s:%d' % (f.module.relpath, idx_try[0].lineno))
     # missing local copy
     loc_try = [t for t in walk_no_nested(f.node) if isinstance(t, ast.Try) and any(_is_call(c, 'open') for s in t.body for c in ast.walk(s))]
-    okl = any(any(isinstance(s, ast.Return) and s.value is not None and _is_download(s.value, f) for s in h.body) for t in loc_try for h in t.handlers)
+    okl = any(any(isinstance(s, ast.Return) and s.value is not None and (_is_download(s.value, f) or (isinstance(s.value, ast.Call) and norm(s.value.func) in closures))
+                  for s in h.body) for t in loc_try for h in t.handlers)
     if okl:
         rep.ok('C19.R4', f.site, 'missing local copy → full download', 'except IOError: return download_file', nontrivial=False)
     else:
@@ -690,7 +706,10 @@ def r8_malformed_entries(rep, src):
     from .. import paths
     f = src.func(SITE)
     closures = _closure_returning_download(f)
-    loops = [n for n in ast.walk(f.node) if isinstance(n, ast.For) and isinstance(n.iter, ast.Call) and isinstance(n.iter.func, ast.Attribute)
+    from .. import normalize
+    # module-level / local private helpers -- a generator that splits the entries included -- are fused into the function
+    fnode, _inl = normalize.inline_helpers(f, depth=2, skip=tuple(closures))
+    loops = [n for n in ast.walk(fnode) if isinstance(n, ast.For) and isinstance(n.iter, ast.Call) and isinstance(n.iter.func, ast.Attribute)
              and n.iter.func.attr == 'splitlines']
     if not loops:
         raise AnalysisError('%s: no loop over the lines of an index field' % f.site)
